@@ -4,6 +4,7 @@ import LyModel.Merge.LemmasDupSibs
 import LyModel.Merge.LemmasCanon
 import LyModel.Merge.LemmasParents
 import LyModel.Merge.LemmasFlags2
+import LyModel.Merge.LemmasDI9
 /-!
 # C14 — merging and duplicating trees preserve content (property theorems)
 
@@ -115,24 +116,40 @@ theorem merge_idempotent_partial (S : Schema) (o : MergeOpts) (t s : List DNode)
 example : wfForest exS exT = true ∧ wfForest exS exSrc = true ∧ noDupInstL exS exSrc = true ∧
     beqL (merge exS {} exT exSrc) exT = false := by decide
 
-/-
--- OPEN: merge_idempotent for sources with instances of key-less lists / state leaf-lists.
--- The C (and the model) match equal instances one to one through the duplicate-instance cache (`lyd_dup_inst_next`) and
--- append the surplus; after the first merge the target holds at least as many equal instances as the source, in the
--- same relative order, so the second merge matches them all and changes nothing.  The statement
---   theorem merge_idempotent (S o t s) : wfForest S t → wfForest S s → merge S o (merge S o t s) s = merge S o t s
--- is believed true and is evaluated on the implementation for every generated pair (law `idem`, including pairs with
--- repeated instances, exhaustively for all sequences over two values up to length 2 / 4); the proof needs the cache
--- invariant ("the k-th source instance of a class is matched with / created as the k-th target instance of the class")
--- carried through both merges and is not done.
---
--- OPEN: merge_contains_source / merge_keeps_untouched_target for sources with such instances: an instance of a
--- key-less list / state leaf-list has no path (libyang prints a position); the corresponding statement — the result
--- holds, per class of equal instances, max(#target, #source) of them, the first #target being the target's — needs the
--- same cache invariant.  Laws `contains` / `keeps` skip nodes in or below such instances; the model/implementation
--- correspondence covers them (state leaf-lists with repeated values and key-less lists in every generated schema with
--- state data, plus the exhaustive sequences).
--/
+/-- a schema with a state leaf-list and a key-less list, and two trees with repeated instances:
+`leaf-list sl {config false;}  list kl {config false; leaf a;}` -/
+def exDS : Schema := { modName := "exd", nodes := [
+  { depth := 0, kind := .leaflist, name := "sl", config := false, userord := true, ty := .uint8 },
+  { depth := 0, kind := .list, name := "kl", nkeys := 0, config := false, userord := true },
+  { depth := 1, kind := .leaf, name := "a", config := false } ] }
+
+/-- target: `sl = [1, 2]`, one `kl {a = x}` -/
+def exDT : List DNode := [.term 0 {} [] [49], .term 0 {} [] [50], .inner 1 {} [] [.term 2 {} [] [120]]]
+
+/-- source: `sl = [2, 1, 1]`, `kl {a = x}` twice, `kl {a = y}` -/
+def exDSrc : List DNode := [.term 0 {} [] [50], .term 0 {} [] [49], .term 0 {} [] [49],
+  .inner 1 {} [] [.term 2 {} [] [120]], .inner 1 {} [] [.term 2 {} [] [120]], .inner 1 {} [] [.term 2 {} [] [121]]]
+
+/-- **merge_idempotent** (full statement): merging the same source a second time changes nothing — not a value, not a
+flag, not the order, not the number of instances — for *every* well-formed target and source, instances of key-less lists
+and state leaf-lists included.  Those are matched one to one through the duplicate-instance cache (`lyd_dup_inst_next`):
+after the first merge the `k`-th source instance of a class of equal instances has been matched with — or linked as — the
+`k`-th target instance of that class (`LemmasDI8`: the cache entry of the class is `(min P N, N)` after `P` processed source
+instances, the target then holds `max P N`), a new instance is linked behind all instances equal to it
+(`insertNode_after_class`), and a matched instance keeps its content (`sub_strip`); so the second merge, starting with an
+empty cache, hands out exactly these nodes again (`absDK_noop`) and finds nothing to change below them. -/
+theorem merge_idempotent (S : Schema) (o : MergeOpts) (t s : List DNode) (ht : wfForest S t = true)
+    (hs : wfForest S s = true) : merge S o (merge S o t s) s = merge S o t s := by
+  have habs := merge_absorbs S o t s ht hs
+  obtain ⟨c', hnoop⟩ := absDK_noop S o s [] false { cur := (mergeKids S o [] false s { cur := t }).cur } []
+    (cacheOK_nil S _) habs
+  simp only [merge]
+  rw [hnoop]
+
+/-- non-vacuity: repeated instances on both sides, the merge adds one `sl = 1`, one `kl {a = x}` and `kl {a = y}` -/
+example : wfForest exDS exDT = true ∧ wfForest exDS exDSrc = true ∧ noDupInstL exDS exDSrc = false ∧
+    beqL (merge exDS {} exDT exDSrc) exDT = false ∧ (merge exDS {} exDT exDSrc).length = 6 := by decide
+
 
 /-! ## the result contains the source -/
 
@@ -180,6 +197,48 @@ example :
       (descend exS [cS, lS, vS] exT).map (·.val) = some [120] ∧
       (descend exS [cS, lS, vS] (merge exS {} exT exSrc)).map (·.val) = some [121] := by
   decide
+
+/-- **merge_contains_source, by positions** (all well-formed sources, nodes in or below instances of key-less lists /
+state leaf-lists included — those have no (schema node, keys) path, libyang prints a position).  A source node `x` is
+addressed by the chain of source nodes leading to it, each with its *position* (`IsChainK`): for an instance of a
+key-less list / state leaf-list the number of equal siblings standing before it, 0 for every other node.  Following the
+same positions in the result (`descendK`: at each level the `k`-th of the nodes the lookup for the chain node accepts)
+finds a node `n` of `x`'s schema node and identity — for a duplicate-instance node: with `x`'s content
+(`lyd_compare_single(…, LYD_COMPARE_FULL_RECURSION)`), i.e. the `k`-th source instance of a class of equal instances is
+the `k`-th instance of that class in the result; for an explicit leaf (or any leaf under `LYD_MERGE_DEFAULTS`) with
+`x`'s value and default flag.  For chains without duplicate-instance nodes all positions are 0 and this is
+`merge_contains_source`. -/
+theorem merge_contains_source_pos (S : Schema) (o : MergeOpts) (t s : List DNode) (ht : wfForest S t = true)
+    (hs : wfForest S s = true) (chain : List (DNode × Nat)) (x : DNode) (k : Nat)
+    (hc : IsChainK S chain false s) (hx : chain.getLast? = some (x, k)) :
+    ∃ n, descendK S chain (merge S o t s) = some n ∧ n.sid = x.sid ∧ matchP S x n = true ∧
+      (S.isDupInst x.sid = true → eqContent n x = true) ∧
+      (x.isTerm = true → (S.isKind x.sid .leaf && (o.defaults || !x.flags.dflt)) = true →
+        n.val = x.val ∧ n.flags.dflt = x.flags.dflt ∧ (o.withFlags = true → n.flags = x.flags)) := by
+  obtain ⟨n, h1, h2, h3⟩ := descendK_of_absorbed S o chain false s _ x k (merge_absorbs S o t s ht hs) hc hx
+  refine ⟨n, h1, matchP_sid h2, h2, fun hd => by rw [← matchP_dup S x n hd]; exact h2, ?_⟩
+  intro hterm hcond
+  cases x with
+  | inner => simp [DNode.isTerm] at hterm
+  | term xs xf xm xv =>
+    simp only [absΦD] at h3
+    have e : n.sid = xs := matchP_sid h2
+    exact h3 (by rw [e]; exact hcond)
+
+/-- non-vacuity: the third `sl` of the source (`sl = 1`, one equal sibling before it) is the second `sl = 1` of the
+result — the target had only one —, and the leaf below the second `kl {a = x}` of the source is found below the second
+such instance of the result -/
+example :
+    let v := DNode.term 0 {} [] [49]
+    let l := DNode.inner 1 {} [] [.term 2 {} [] [120]]
+    let a := DNode.term 2 {} [] [120]
+    IsChainK exDS [(v, 1)] false exDSrc ∧ (descendK exDS [(v, 1)] exDT).isNone = true ∧
+      (descendK exDS [(v, 1)] (merge exDS {} exDT exDSrc)).map (·.val) = some [49] ∧
+      IsChainK exDS [(l, 1), (a, 0)] false exDSrc ∧ (descendK exDS [(l, 1), (a, 0)] exDT).isNone = true ∧
+      (descendK exDS [(l, 1), (a, 0)] (merge exDS {} exDT exDSrc)).map (·.flags.new) = some true := by
+  refine ⟨⟨[.term 0 {} [] [50], .term 0 {} [] [49]], _, rfl, by decide⟩, by decide, by decide,
+    ⟨⟨[.term 0 {} [] [50], .term 0 {} [] [49], .term 0 {} [] [49], .inner 1 {} [] [.term 2 {} [] [120]]], _, rfl,
+      by decide⟩, ⟨[], [], rfl, by decide⟩⟩, by decide, by decide⟩
 
 /-! ## the result keeps what the source does not touch -/
 
